@@ -183,3 +183,150 @@ Fixpoint wf_filter (f : filter) : bool :=
   | FAnd [a; b] | FOr [a; b] => wf_filter a && wf_filter b
   | _ => false
   end.
+
+(** ** stages and whole queries *)
+From AG Require Import Pipeline.
+Open Scope N_scope.
+
+Definition names_text (o : popts) (l : list str) : str :=
+  sep_join (po_ws0 o ++ 44 :: po_ws0 o) (map (ident_text o) l).
+Definition from_text (o : popts) (f : option expr) : str :=
+  match f with Some e => po_ws1 o ++ lit "from" ++ po_ws1 o ++ pp o 0 e | None => [] end.
+Definition arg_text (o : popts) (e : expr) : str := 40 :: po_ws0 o ++ pp o 0 e ++ po_ws0 o ++ [41].
+Definition as_text (o : popts) (n : str) : str := po_ws1 o ++ lit "as" ++ po_ws1 o ++ ident_text o n.
+Definition dur_text (ns : Z) : str := Z_to_str ns ++ lit "ns".
+
+(** the NN of a percentile q = NN/100 *)
+Definition pct_of (q : f64) : option Z :=
+  find (fun v => Z.eqb (bits_of_f (fdiv (f_of_Z v) (f_of_Z 100))) (bits_of_f q))
+       (map Z.of_nat (seq 1 99)).
+
+Definition aggfn_text (o : popts) (f : aggfn) : option str :=
+  match f with
+  | FCount None => Some (lit "count")
+  | FCount (Some c) => Some (lit "count" ++ arg_text o c)
+  | FSum e => Some (lit "sum" ++ arg_text o e)
+  | FMin e => Some (lit "min" ++ arg_text o e)
+  | FMax e => Some (lit "max" ++ arg_text o e)
+  | FAvg e => Some (lit "avg" ++ arg_text o e)
+  | FDistinct e => Some (lit "count_distinct" ++ arg_text o e)
+  | FPct q e => match pct_of q with
+                | Some v => Some (lit "p" ++ Z_to_str v ++ arg_text o e)
+                | None => None
+                end
+  end.
+
+Fixpoint all_some {A} (l : list (option A)) : option (list A) :=
+  match l with
+  | [] => Some []
+  | Some x :: r => match all_some r with Some xs => Some (x :: xs) | None => None end
+  | None :: _ => None
+  end.
+
+Definition comma (o : popts) : str := po_ws0 o ++ 44 :: po_ws0 o.
+
+Definition pp_stage (o : popts) (st : stage) : option str :=
+  let w1 := po_ws1 o in
+  match st with
+  | SJson f => Some (lit "json" ++ from_text o f)
+  | SLogfmt f => Some (lit "logfmt" ++ from_text o f)
+  | SParse pat fields f nodrop noconv =>
+      Some (lit "parse" ++ w1 ++ quote_str o pat ++ from_text o f
+            ++ (match fields with [] => [] | _ => w1 ++ lit "as" ++ w1 ++ names_text o fields end)
+            ++ (if nodrop then w1 ++ lit "nodrop" else [])
+            ++ (if noconv then w1 ++ lit "noconvert" else []))
+  | SSplit sep arg out =>
+      Some (lit "split" ++ (match arg with Some e => arg_text o e | None => [] end)
+            ++ w1 ++ lit "on" ++ w1 ++ quote_str o sep
+            ++ (match out, arg with
+                | Some x, Some a => if str_eqb (pp o 0 x) (pp o 0 a) then [] else w1 ++ lit "as" ++ w1 ++ pp o 0 x
+                | Some x, None => w1 ++ lit "as" ++ w1 ++ pp o 0 x
+                | None, _ => []
+                end))
+  | SFields only fs =>
+      Some (lit "fields" ++ w1 ++ (if only then [] else lit "except" ++ w1) ++ names_text o fs)
+  | SWhere e => Some (lit "where" ++ w1 ++ pp o 0 e)
+  | SLet e n => Some (pp o 0 e ++ as_text o n)
+  | STimeslice e ns n =>
+      Some (lit "timeslice" ++ arg_text o e ++ w1 ++ dur_text ns
+            ++ (match n with Some x => as_text o x | None => [] end))
+  | SLimit n => Some (lit "limit" ++ w1 ++ Z_to_str n)
+  | STotal e n => Some (lit "total" ++ arg_text o e ++ as_text o n)
+  | SAgg fns keys =>
+      match all_some (map (fun nf => option_map (fun t => t ++ as_text o (fst nf)) (aggfn_text o (snd nf))) fns) with
+      | Some ts =>
+          Some (sep_join (comma o) ts
+                ++ (match keys with
+                    | [] => []
+                    | _ => w1 ++ lit "by" ++ w1 ++ sep_join (comma o) (map (fun ke => pp o 0 (snd ke)) keys)
+                    end))
+      | None => None
+      end
+  | SSort keys desc =>
+      Some (lit "sort"
+            ++ (match keys with [] => [] | _ => w1 ++ lit "by" ++ w1 ++ sep_join (comma o) (map (pp o 0) keys) end)
+            ++ (if desc then w1 ++ lit "desc" else []))
+  | SUnmodelled => None
+  end.
+
+(** a whole query: the search part (`*` when empty), then `| stage` for every stage *)
+Definition pp_query (o : popts) (fs : list filter) (stages : list stage) : option str :=
+  match all_some (map (pp_stage o) stages) with
+  | Some ts =>
+      Some ((match fs with [] => lit "*" | _ => fpp_top o fs end)
+            ++ flat_map (fun t => po_ws0 o ++ 124 :: po_ws0 o ++ t) ts)
+  | None => None
+  end.
+
+(** *** which stages the printer/parser pair covers *)
+Definition mode_word (n : str) : bool :=
+  str_eqb n (lit "only") || str_eqb n (lit "include") || str_eqb n (lit "except") || str_eqb n (lit "drop").
+
+Definition operator_words : list str :=
+  map lit ["parse"; "json"; "logfmt"; "fields"; "limit"; "split"; "timeslice"; "total"; "where";
+           "count"; "count_distinct"; "min"; "max"; "sum"; "avg"; "average"; "sort"].
+
+(** a field expression must not begin with a word the operator alternatives claim first
+    (known finding KF-30), nor look like a percentile call *)
+Definition reserved_start (t : str) : bool :=
+  let '(w, r) := take_while is_ident_char t in
+  existsb (str_eqb w) operator_words
+  || (match first_tag Generated.pct_tags w with
+      | Some d => negb (is_nil d) && forallb is_digit d && head_is 40 r
+      | None => false
+      end).
+
+Definition wf_opt (f : option expr) : bool := match f with Some e => wf_expr e | None => true end.
+
+Definition wf_aggfn (f : aggfn) : bool :=
+  match f with
+  | FCount c => wf_opt c
+  | FSum e | FMin e | FMax e | FAvg e | FDistinct e => wf_expr e
+  | FPct q e => wf_expr e && (match pct_of q with Some _ => true | None => false end)
+  end.
+
+Definition wf_stage (o : popts) (st : stage) : bool :=
+  match st with
+  | SJson f | SLogfmt f => wf_opt f
+  | SParse _ _ f _ _ => wf_opt f
+  | SSplit _ arg out => wf_opt arg && wf_opt out && (match out, arg with None, Some _ => false | _, _ => true end)
+  | SFields only fs =>
+      negb (is_nil fs) && negb (only && match fs with n :: _ => mode_word n | [] => false end)
+  | SWhere e => wf_expr e
+  | SLet e _ => wf_expr e && negb (reserved_start (pp o 0 e))
+  | STimeslice e ns _ => wf_expr e && in_i64 ns && dur_ok ns
+  | SLimit n => negb (n =? 0)%Z && (Z.abs n <=? 2 ^ 53)%Z
+  | STotal e _ => wf_expr e
+  | SAgg fns keys =>
+      negb (is_nil fns) && forallb (fun nf => wf_aggfn (snd nf)) fns
+      && forallb (fun ke => wf_expr (snd ke) && str_eqb (fst ke) (pp o 0 (snd ke))) keys
+  | SSort keys _ => forallb wf_expr keys
+  | SUnmodelled => false
+  end.
+
+(** what follows a stage: the end of the query or, after optional whitespace, a pipe *)
+Definition stage_stop (k : str) : bool :=
+  match skip_spaces k with [] => true | c :: _ => (c =? 124) end.
+
+Definition plain_inline (st : stage) : bool :=
+  match st with SLet _ _ | SAgg _ _ | SSort _ _ | SUnmodelled => false | _ => true end.
